@@ -79,6 +79,8 @@ enum Instr {
     Grad(usize),
     ClearGrad(usize),
     FetchGrad(usize),
+    /// backward(Some(clone of another variable)): the seed is an existing array handed over as it is
+    BackwardH(usize, usize),
     TakeVec(usize),
     Index(usize, Vec<usize>),
     IndexFlat(usize, usize),
@@ -198,6 +200,10 @@ fn parse_instr(line: &str) -> Instr {
                 None
             };
             Instr::Backward(h, seed)
+        }
+        "backwardh" => {
+            let h = t.u();
+            Instr::BackwardH(h, t.u())
         }
         "grad" => Instr::Grad(t.u()),
         "cleargrad" => Instr::ClearGrad(t.u()),
@@ -560,6 +566,18 @@ fn exec(
                 .as_ref()
                 .map(|(d, v)| Array::from((d.clone(), v.clone())));
             var(vars, *h).backward(seed);
+            LOG.with(|l| {
+                for (t, d, v) in l.borrow().iter() {
+                    let mut ns = vec![*t];
+                    ns.extend_from_slice(d);
+                    item(6, &ns, v, out);
+                }
+            });
+        }
+        Instr::BackwardH(h, s) => {
+            LOG.with(|l| l.borrow_mut().clear());
+            let seed = var(vars, *s).clone();
+            var(vars, *h).backward(Some(seed));
             LOG.with(|l| {
                 for (t, d, v) in l.borrow().iter() {
                     let mut ns = vec![*t];
